@@ -83,6 +83,12 @@ def gen_cases(rng, ctx):
         add(4, [[7, ch], [5], [6], [8, 0], [6]], "session:completion-waits-channel%d" % ch)
         add(4, [[7, ch], [1], [2, 1], [3], [6], [5], [6], [4, 1], [6]], "session:submit-winds-down-channel%d" % ch)
         add(4, [[1], [7, ch], [7, (ch + 1) % 3], [5], [4, 0], [6], [8, 1], [6], [8, 2], [6]], "session:two-sessions-channel%d" % ch)
+    # the real endpoint (Core::listen on a loopback port, TLS and QUIC) with live sessions of every transport: submission,
+    # goodbye seen by each client (HTTP/1.1 close, HTTP/2 GOAWAY, QUIC close), completion after the last one is done.
+    # The QUIC session races the listener that feeds it: repeated, because the order is the scheduler's choice
+    for mask in ([1, 2, 8, 16, 31, 27] + [4] * (10 if thorough else 5) + [5, 6, 12, 20]):
+        l = line("c19_front", [[mask]])
+        cases.append(Case(l, l, kind="endpoint:sessions-%d" % mask, nontrivial=mask != 0, meta={"front": True, "mask": mask}))
     for i in range(120 if thorough else 30):
         ops = []
         for _ in range(rng.choice([8, 11, 14])):
@@ -126,9 +132,34 @@ def known_finding(case, kind, msg, known):
     return None
 
 
+NAMES = {1: "HTTP/1.1 tunnel in use", 2: "HTTP/2 connection with an open tunnel stream", 4: "HTTP/3 (QUIC) connection with an open tunnel stream",
+         8: "idle TLS connection", 16: "idle HTTP/2 connection"}
+
+
 def judge(case, impl, model, spec, ctx):
     if impl == "999":
         return [("violation", "the shutdown harness panicked")]
+    if case.meta.get("front"):
+        if impl == "996":
+            ctx.setdefault("skipped_env", []).append(case.kind)
+            return []
+        est, listener, wound, completion, early, accepts = untok(impl.split()[0])
+        mask = case.meta["mask"]
+        what = "real endpoint with live sessions {%s}, shutdown submitted" % ", ".join(v for k, v in NAMES.items() if mask & k)
+        if est != mask:
+            return [("disagree", "%s: only sessions %d of %d could be established" % (what, est, mask))]
+        if not listener:
+            return [("violation", "%s: Core::listen did not return Ok within 3 s" % what)]
+        missing = [v for k, v in NAMES.items() if (mask & k) and not (wound & k)]
+        if missing:
+            return [("violation", "%s: no graceful wind-down seen by the client within 3 s for: %s" % (what, "; ".join(missing)))]
+        if not completion:
+            return [("violation", "%s: completion did not return within 3 s although every session had been wound down and ended by its client" % what)]
+        if early:
+            return [("violation", "%s: completion returned before the last session had wound down" % what)]
+        if model is not None and impl != model:
+            return [("disagree", "%s: %s vs model %s" % (what, impl, model))]
+        return []
     ops = case.meta["ops"]
     if impl.strip() == "995":
         return [("violation", "script %s on %d worker thread(s) hung: a registration blocked on the shutdown lock that the coordinator holds while awaiting completion, "
